@@ -11,6 +11,14 @@
 //!  * timing relative to the request writes: after the mock saw (and parked) all requests; as the reaction to the
 //!    first request that arrives while the others are being written; before any request was issued.
 //!
+//! Second part ("same-target"): the same session but with a harness retry policy that answers RetrySameTarget (up to
+//! 3 times) to a broken connection, pools of 2 and of 1 connections per node, FIN/RST (between frames, inside the
+//! header, inside the body) on the connection that carries request 0. The policy's first decision waits until the
+//! mock has seen the pool's replacement connection, i.e. until the pool has evicted the dead one, so which
+//! connections the pool offers at the retry is not left to a race. Oracle: every caller completes; with a pool of 2
+//! the retried attempt arrives on a LIVE connection of the same node and the caller gets that node's rows; with a
+//! pool of 1 success (new connection or next node) or an error are accepted, a hang is not.
+//!
 //! Oracle (holds under every client schedule):
 //!  * every client future completes within the liveness deadline (20 s where a correct driver needs milliseconds,
 //!    or interval+timeout for the silent node);
@@ -219,7 +227,7 @@ async fn finish(h: JoinHandle<Outcome>) -> Result<Outcome, ()> {
 
 async fn run(case: &Case) -> Result<Obs, String> {
     let stall = case.fault == Fault::Stall;
-    let w = World::new(&WorldCfg { nodes: 2, owner_is_contact_point: case.ctrl, keepalive: stall.then_some((KEEPALIVE_INTERVAL, KEEPALIVE_TIMEOUT)) }).await?;
+    let w = World::new(&WorldCfg { owner_is_contact_point: case.ctrl, keepalive: stall.then_some((KEEPALIVE_INTERVAL, KEEPALIVE_TIMEOUT)), ..WorldCfg::new(2) }).await?;
     let r = match drive(case, &w).await {
         Ok(obs) => {
             let unexpected = w.cluster.unexpected();
@@ -443,6 +451,241 @@ async fn drive(case: &Case, w: &World) -> Result<Obs, String> {
     Ok(obs)
 }
 
+// ------------------------------------------------------------------------------------------------
+// same-target retries
+// ------------------------------------------------------------------------------------------------
+
+#[derive(Debug, Default)]
+struct Gate {
+    open: std::sync::Mutex<bool>,
+    cv: std::sync::Condvar,
+    waits: std::sync::atomic::AtomicUsize,
+    decisions: std::sync::atomic::AtomicUsize,
+    timed_out: AtomicBool,
+}
+impl Gate {
+    fn wait(&self) {
+        self.waits.fetch_add(1, Ordering::SeqCst);
+        let g = self.open.lock().unwrap();
+        let (_g, t) = self.cv.wait_timeout_while(g, LIVENESS, |open| !*open).unwrap();
+        if t.timed_out() {
+            self.timed_out.store(true, Ordering::SeqCst);
+        }
+    }
+    fn open(&self) {
+        *self.open.lock().unwrap() = true;
+        self.cv.notify_all();
+    }
+}
+/// RetrySameTarget (at most 3 times per request) for a broken connection of an idempotent request, else DontRetry.
+#[derive(Debug)]
+struct SameTargetPolicy {
+    gate: Arc<Gate>,
+}
+struct SameTargetSession {
+    gate: Arc<Gate>,
+    n: usize,
+}
+impl scylla::policies::retry::RetryPolicy for SameTargetPolicy {
+    fn new_session(&self) -> Box<dyn scylla::policies::retry::RetrySession> {
+        Box::new(SameTargetSession { gate: self.gate.clone(), n: 0 })
+    }
+}
+impl scylla::policies::retry::RetrySession for SameTargetSession {
+    fn decide_should_retry(&mut self, info: scylla::policies::retry::RequestInfo) -> scylla::policies::retry::RetryDecision {
+        use scylla::policies::retry::RetryDecision;
+        match info.error {
+            scylla::errors::RequestAttemptError::BrokenConnectionError(_) if info.is_idempotent && self.n < 3 => {
+                self.n += 1;
+                self.gate.decisions.fetch_add(1, Ordering::SeqCst);
+                // not before the pool has evicted the dead connection (the harness saw its replacement arrive)
+                self.gate.wait();
+                RetryDecision::RetrySameTarget(None)
+            }
+            _ => RetryDecision::DontRetry,
+        }
+    }
+    fn reset(&mut self) {
+        self.n = 0;
+    }
+}
+
+#[derive(Clone, Debug)]
+struct SameCase {
+    pool: usize,
+    kind: CloseKind,
+    cut: Cut,
+    k: usize,
+    rep: usize,
+}
+impl SameCase {
+    fn json(&self) -> Value {
+        json!({"same_target": true, "pool": self.pool, "close": format!("{:?}", self.kind), "cut": self.cut.name(), "k": self.k, "rep": self.rep})
+    }
+    fn from_json(v: &Value) -> SameCase {
+        SameCase {
+            pool: v["pool"].as_u64().unwrap_or(2) as usize,
+            kind: if v["close"].as_str() == Some("Fin") { CloseKind::Fin } else { CloseKind::Rst },
+            cut: Cut::parse(v["cut"].as_str().unwrap_or("between")),
+            k: v["k"].as_u64().unwrap_or(1) as usize,
+            rep: v["rep"].as_u64().unwrap_or(0) as usize,
+        }
+    }
+}
+
+async fn run_same(case: &SameCase) -> Result<Obs, String> {
+    let gate = Arc::new(Gate::default());
+    let w = World::new(&WorldCfg { pool: case.pool, retry: Some(Arc::new(SameTargetPolicy { gate: gate.clone() })), ..WorldCfg::new(2) }).await?;
+    let r = match drive_same(case, &w, &gate).await {
+        Ok(obs) => {
+            let unexpected = w.cluster.unexpected();
+            if !unexpected.is_empty() {
+                Err(format!("mock saw an unscripted request: {}", unexpected[0].describe()))
+            } else if gate.timed_out.load(Ordering::SeqCst) {
+                Err("the retry policy's gate was never opened".into())
+            } else {
+                Ok(obs)
+            }
+        }
+        Err(e) => Err(format!("{e}\n{}", w.cluster.dump_log())),
+    };
+    gate.open();
+    w.teardown().await;
+    r
+}
+
+async fn drive_same(case: &SameCase, w: &World, gate: &Gate) -> Result<Obs, String> {
+    let cluster = &w.cluster;
+    let node_a = 1usize;
+    let mut obs = Obs::default();
+    // ---- the pool of A is complete on both sides: the mock has `pool` ready connections and each carried a request
+    cluster.wait_conns("node A has its pool connections", LIVENESS, |cs| (cs.iter().filter(|c| c.node == node_a && c.ready && c.open).count() >= case.pool).then_some(())).await?;
+    let deadline = tokio::time::Instant::now() + LIVENESS;
+    let mut warm = FENCE_BASE;
+    loop {
+        w.fence(warm).await?;
+        warm += 1;
+        let used: BTreeSet<u64> = cluster.log().iter().filter(|e| e.node == node_a && entry_value(e).is_some()).map(|e| e.conn).collect();
+        if used.len() >= case.pool {
+            break;
+        }
+        if tokio::time::Instant::now() > deadline {
+            return Err(format!("warm-up requests used only {} of A's {} pool connections", used.len(), case.pool));
+        }
+        tokio::task::yield_now().await;
+    }
+    let last_conn_before = cluster.conns().iter().map(|c| c.id).max().unwrap_or(0);
+    let rule = cluster.hold(move |a| a.node == node_a && action_value(a).map(|v| v < FENCE_BASE).unwrap_or(false) && matches!(a.reply(), Some(Reply::Frame(_))));
+
+    let callers: Vec<JoinHandle<Outcome>> = (0..case.k).map(|i| tokio::spawn(w.call(i as i32, true))).collect();
+    let parked = cluster.wait_held_count(&format!("{} responses parked on node A", case.k), case.k, |a| action_value(a).map(|v| (v as usize) < case.k).unwrap_or(false)).await?;
+    let a0 = parked.iter().find(|a| action_value(a) == Some(0)).cloned().ok_or("request 0 not parked")?;
+    let victim = a0.conn;
+    let pool_conns: Vec<u64> = cluster.open_conns(Some(node_a)).iter().map(|c| c.id).collect();
+    obs.flag(if pool_conns.iter().min() == Some(&victim) { "victim_is_the_older_pool_connection" } else { "victim_is_the_younger_pool_connection" });
+    let on_victim: Vec<usize> = parked.iter().filter(|a| a.conn == victim).filter_map(|a| action_value(a)).map(|v| v as usize).collect();
+    cluster.unhold(rule); // retried attempts are answered at once
+
+    // ---- the fault
+    let env = a0.reply().and_then(|r| r.envelope()).cloned().ok_or("parked reply without a frame")?;
+    if a0.request().and_then(|f| f.request.params()).map(|p| p.skip_metadata).unwrap_or(true) {
+        return Err("request asks to skip metadata: the harness cannot predict the frame length".into());
+    }
+    let len = env.encode_frame(a0.request().unwrap().stream).len();
+    let off = case.cut.offset(len);
+    cluster.release_with(a0.id, Reply::CutFrame { env, bytes: off, then: case.kind });
+    obs.trace.push(format!("{off} of {len} bytes of the response to 0 on connection {victim}, then {:?}; {} request(s) in flight on it", case.kind, on_victim.len()));
+
+    // ---- the pool evicted the dead connection: its replacement shows up at the mock; only then may the policy answer
+    if cluster.wait_conns("node A has a replacement connection", LIVENESS, |cs| cs.iter().any(|c| c.node == node_a && c.id > last_conn_before && c.ready && c.open).then_some(())).await.is_err() {
+        gate.open();
+        obs.v("c10-mock:pool-not-refilled", format!("node A got no new connection within {LIVENESS:?} after a pool connection died"));
+        return Ok(obs);
+    }
+    gate.open();
+    for a in parked.iter().filter(|a| a.conn != victim) {
+        w.release_in_order(a).await?;
+    }
+
+    // ---- every caller completes; the retried ones on a live connection of the same node
+    let mut outcomes = Vec::new();
+    for (i, h) in callers.into_iter().enumerate() {
+        match finish(h).await {
+            Ok(o) => outcomes.push(o),
+            Err(()) => {
+                obs.v("c10-mock:caller-hang", format!("request {i} did not complete within {LIVENESS:?} after its connection died (retry-same-target policy, pool of {})", case.pool));
+                return Ok(obs);
+            }
+        }
+    }
+    let log = cluster.log();
+    for (i, o) in outcomes.iter().enumerate() {
+        let v = i as i32;
+        let sent_by = answered_by(&log, v);
+        let retried_on_live_a = log.iter().any(|e| entry_value(e) == Some(v) && e.node == node_a && e.conn != victim);
+        match o {
+            Ok(rows) => match sent_by.iter().copied().find(|n| *rows == expected_rows(*n, v)) {
+                Some(n) => obs.flag(if n == node_a { "ok_from_the_same_node" } else { "ok_from_the_next_node" }),
+                None => obs.v("c10-mock:foreign-or-partial-rows", format!("request {i} completed Ok with rows {rows:?}, which no node sent completely for that request (complete responses came from nodes {sent_by:?})")),
+            },
+            Err(e) => {
+                obs.inflight_failed += 1;
+                if case.pool >= 2 && on_victim.contains(&i) {
+                    obs.v(
+                        "c10-mock:same-target-retry-not-on-a-live-connection",
+                        format!("request {i} failed although its node still had a live pool connection when the policy answered RetrySameTarget (the dead connection had already been evicted: its replacement had arrived); retried frames seen on a live connection of the node: {retried_on_live_a}; error: {e}"),
+                    );
+                } else if !on_victim.contains(&i) {
+                    obs.v("c10-mock:session-not-working", format!("request {i} on an untouched connection failed: {e}"));
+                } else {
+                    obs.flag("pool_of_one_retry_failed");
+                }
+            }
+        }
+        if on_victim.contains(&i) && o.is_ok() {
+            if retried_on_live_a {
+                obs.flag("retry_arrived_on_a_live_connection_of_the_same_node");
+            } else if case.pool >= 2 {
+                obs.v("c10-mock:same-target-retry-not-on-a-live-connection", format!("request {i} completed Ok but no retried frame reached a live connection of its node"));
+            }
+        }
+    }
+    match tokio::time::timeout(LIVENESS, w.call(warm + 100, true)).await {
+        Ok(Ok(_)) => {}
+        Ok(Err(e)) => obs.v("c10-mock:session-not-working", format!("a fresh idempotent request after the fault failed: {e}")),
+        Err(_) => obs.v("c10-mock:caller-hang", format!("a fresh request after the fault did not complete within {LIVENESS:?}")),
+    }
+    for s in stream_reuse(&cluster.log()) {
+        obs.v("c10-mock:stream-id-reused-while-owed", s);
+    }
+    Ok(obs)
+}
+
+fn run_same_blocking(case: &SameCase) -> Result<Obs, String> {
+    // the policy's decision waits on a condvar inside a worker thread: leave workers for the mock and the pool
+    let rt = runtime_n(2 + case.k.max(2));
+    let r = rt.block_on(run_same(case));
+    rt.shutdown_timeout(Duration::from_millis(200));
+    r
+}
+
+fn same_cases(thorough: bool) -> Vec<SameCase> {
+    let mut out = Vec::new();
+    // which connection of a pool of 2 a request takes is the driver's random choice: repeated (sampled)
+    for rep in 0..if thorough { 10 } else { 4 } {
+        for pool in [2usize, 1] {
+            for k in [1usize, 2] {
+                for kind in [CloseKind::Fin, CloseKind::Rst] {
+                    for cut in [Cut::Between, Cut::Header(4), Cut::BodyMid] {
+                        out.push(SameCase { pool, kind, cut, k, rep });
+                    }
+                }
+            }
+        }
+    }
+    out
+}
+
 fn run_blocking(case: &Case) -> Result<Obs, String> {
     let rt = runtime();
     let r = rt.block_on(run(case));
@@ -512,8 +755,8 @@ fn main() {
     let r = Report::new("C10", "mock", "fault_enumeration", "E-MOCK");
     std::panic::set_hook(Box::new(|_| {}));
     if let Some(case) = r.replay_case() {
-        let c = Case::from_json(&case);
-        match run_blocking(&c) {
+        let res = if case.get("same_target").is_some() { run_same_blocking(&SameCase::from_json(&case)) } else { run_blocking(&Case::from_json(&case)) };
+        match res {
             Ok(obs) => {
                 println!("trace: {:?}\nflags: {:?}\ndisturbed: {}", obs.trace, obs.flags, obs.disturbed);
                 for (k, w) in obs.violations {
@@ -592,12 +835,62 @@ fn main() {
             }
         }
     });
+    // ---- second part: retry-same-target policy, pools of 2 and 1
+    let same = if r.args.extra_value("--only-early-raw").is_some() { Vec::new() } else { same_cases(r.tier().is_thorough()) };
+    vcore::par::for_range(jobs, same.len() as u64, |i| {
+        if stop.load(Ordering::Relaxed) {
+            rr.counters.add("cases_skipped_after_first_violation", 1);
+            return;
+        }
+        let case = &same[i as usize];
+        let out = match run_same_blocking(case) {
+            Err(e) => match run_same_blocking(case) {
+                Err(e2) => Err(format!("{e}\n--- again: {e2}")),
+                ok => {
+                    rr.counters.add("stalls_not_reproduced", 1);
+                    ok
+                }
+            },
+            ok => ok,
+        };
+        match out {
+            Ok(obs) => {
+                rr.eval(1);
+                if case.rep == 0 {
+                    rr.nontrivial(1);
+                }
+                rr.counters.add(&format!("same_target_pool_of_{}", case.pool), 1);
+                for f in &obs.flags {
+                    rr.counters.add(&format!("same_target_{f}"), 1);
+                }
+                classes.lock().unwrap().insert(format!("same-target|{}|{:?}", case.pool, obs.flags.iter().collect::<BTreeSet<_>>()));
+                if !obs.violations.is_empty() {
+                    stop.store(true, Ordering::Relaxed);
+                }
+                for (k, w) in obs.violations {
+                    rr.violation(&k, &format!("{w} [case {}; steps {:?}]", case.json(), obs.trace), case.json());
+                }
+                if i == 0 {
+                    rr.sample(json!({"case": case.json(), "steps": obs.trace, "flags": obs.flags}));
+                }
+            }
+            Err(e) => {
+                rr.eval(1);
+                stop.store(true, Ordering::Relaxed);
+                let first = e.lines().next().unwrap_or("").to_string();
+                eprintln!("STALL case {}:\n{e}", case.json());
+                rr.violation("c10-mock:stall", &format!("run stalled twice: {first} [case {}]", case.json()), case.json());
+            }
+        }
+    });
+    r.note("same_target_cases", json!(same.len()));
     r.note("cases", json!(all.len()));
     r.note("distinct_fault_timing_outcome_classes", json!(classes.lock().unwrap().len()));
     r.note("keepalive_ms", json!([KEEPALIVE_INTERVAL.as_millis() as u64, KEEPALIVE_TIMEOUT.as_millis() as u64]));
     r.set_exhaustive(r.counters.get("cases_skipped_after_first_violation") == 0);
     r.set_rule("runs in which at least one in-flight request was failed by the dying connection (distinct (idempotence pattern, answered prefix, fault, timing) tuples)");
     r.assume("client-internal task scheduling is whatever the OS produces (engine E-MOCK); whether the bytes written before an RST are still read by the client is the kernel's choice, so a completely answered request may complete Ok or fail");
+    r.assume("same-target part: which connection of a pool of 2 carries request 0 is the driver's random choice (4 / 10 repetitions; counters victim_is_the_older/younger_pool_connection); the policy's first decision is held until the pool's replacement connection reached the mock, so the dead connection is no longer offered by the pool when the retry picks a connection");
     r.assume("no client-side request timeout; default retry policy, default load balancing (token-aware, plan [A, B]); pool of one connection per node; all 2^k idempotence patterns per k (quick, k = 3: the 4 patterns FFF, TTT, TFT, FTF); thorough also answers the LAST j requests and also makes A the contact point / control-connection node; the before-timing is repeated 3 (quick) / 8 (thorough) times because its outcome depends on the client's own race (sampled)");
     if classes.lock().unwrap().len() < 4 && r.violation_count() == 0 {
         vcore::machinery_error("vacuous: fewer than 4 distinct (fault, timing, outcome) classes");
